@@ -16,14 +16,33 @@ C12 driver: for one case (input line, observation of the real engine)
 namespace Pandora.Drv.C12
 open Pandora.Drv Pandora.Model.C04 Pandora.Model.C12 Pandora.Spec.C12
 
-def parsePart (s : String) : Option Part :=
+/-- split at '+' outside brackets -/
+def splitTop (s : String) : List String :=
+  let (parts, cur, _) := s.toList.foldl (fun (acc : List String × String × Nat) ch =>
+    let (parts, cur, depth) := acc
+    if ch == '[' then (parts, cur.push ch, depth + 1)
+    else if ch == ']' then (parts, cur.push ch, depth - 1)
+    else if ch == '+' && depth == 0 then (parts ++ [cur], "", depth)
+    else (parts, cur.push ch, depth)) ([], "", 0)
+  parts ++ [cur]
+
+def parseLeaf (s : String) : Option Part :=
   match s.splitOn ":" with
   | ["once", n] => do pure (.once (← n.toInt?))
   | ["const", ops, ms] => do pure (.const (← ops.toInt?) (← ms.toInt?))
+  | ["constm", mops, ms] => do pure (.constm (← mops.toInt?) (← ms.toInt?))
   | ["step", f, t, st, ms] => do pure (.step (← f.toInt?) (← t.toInt?) (← st.toInt?) (← ms.toInt?))
   | _ => none
 
-def parseParts (s : String) : Option (List Part) := (s.splitOn "+").mapM parsePart
+/-- `part+part+…`, a part being a leaf or `[…]` (a nested composite); `fuel` bounds the nesting depth -/
+def parsePartsFuel : Nat → String → Option (List Part)
+  | 0, _ => none
+  | fuel + 1, s => (splitTop s).mapM fun seg =>
+      if seg.startsWith "[" && seg.endsWith "]" then
+        (parsePartsFuel fuel (String.ofList ((seg.toList.drop 1).dropLast))).map Part.comp
+      else parseLeaf seg
+
+def parseParts (s : String) : Option (List Part) := parsePartsFuel 16 s
 
 def parsePairs (s : String) : Option (List (String × Int)) :=
   (splitList s).mapM fun p => match p.splitOn ":" with
@@ -43,7 +62,8 @@ def parseObs (kv : List (String × String)) : Option Obs := do
          toks := ← parseInts (getS kv "toks"), picks := ← parseInts (getS kv "picks"),
          ctoks := ← parseInts (getS kv "ctoks"), guns := ← parseInts (getS kv "guns"),
          binds, exits := ← parseExits (getS kv "exits"), cuts := ← parsePairs (getS kv "cuts"),
-         jitter := (getI? kv "jitter").getD 0 }
+         jitter := (getI? kv "jitter").getD 0,
+         lastshot := (getI? kv "lastshot").getD (-1), gunctx := (getI? kv "gunctx").getD (-1) }
 
 def reasonOf : String → Option ExitReason
   | "sched" => some .scheduleEnd
@@ -99,7 +119,8 @@ def replay (perinst : Bool) (o : Obs) : St :=
 
 def natList (l : List Nat) : String := ",".intercalate (l.map toString)
 
-def handle : Handler := fun input impl =>
+/-- one pool: (model observation, verdict) -/
+def handlePool (input impl : String) : String × String :=
   match parseParts (getS (parseKV input) "startup"), parseObs (parseKV impl) with
   | some parts, some o =>
     let perinst := getS (parseKV input) "perinst" == "1"
@@ -132,5 +153,23 @@ def handle : Handler := fun input impl =>
     if impl == "HANG" then ("-", "fail:hang:the engine did not finish (Run + Wait) within the case timeout")
     else if impl.startsWith "PANIC" then ("-", s!"fail:panic:{impl.take 200}")
     else ("-", s!"fail:crash:unparsable observation {impl.take 120}")
+
+/-- an engine of one or several pools (`||`-separated): every pool is judged and replayed on its own — ids, profile and
+causes are per pool; the verdict is the first failure, else the first skip, else ok -/
+def handle : Handler := fun input impl =>
+  let ins := (input.splitOn "||").map fun x => x.trimAscii.toString
+  let obss := (impl.splitOn "||").map fun x => x.trimAscii.toString
+  if ins.length == obss.length then
+    let rs := (ins.zip obss).map fun (i, o) => handlePool i o
+    let mobs := if rs.any (·.1 == "-") then "-" else " || ".intercalate (rs.map (·.1))
+    let v := match rs.find? (·.2.startsWith "fail") with
+      | some r => r.2
+      | none => match rs.find? (·.2.startsWith "skip") with
+        | some r => r.2
+        | none => "ok"
+    (mobs, v)
+  else
+    -- the whole engine hung or crashed: one observation for all pools
+    handlePool (ins.headD "") impl
 
 end Pandora.Drv.C12
